@@ -29,6 +29,8 @@ def cfg(nr, nx, ny, levels, mode="types", args=(), owner=None, nz=1, dim=2, mult
     return c
 
 
+THOROUGH_VALIDATED = False
+
 NAIVE = ("--parti-type", "naive")
 TWOLVL = ("--parti-type", "2level")
 GENETIC = ("--parti-type", "genetic", "--parti-genetic-time", "0", "0")
@@ -152,7 +154,9 @@ def run_phase(chk, assigns, rng, gdir, binary=None):
         if shutil.which("mpirun") is None or shutil.which("mpicxx") is None:
             raise vlib.MachineryError("MPI toolchain (mpicxx/mpirun) not available")
         binary, = vlib.build(["c12_pdc"], variant="mpi")
-    cases = configurations(chk.tier, rng, assigns)
+    # the thorough-only configurations (up to 16 ranks, genetic partitioner, hexahedra, four layers) have not been run on the unchanged
+    # tree yet (session ended first): until they are, both tiers run the validated quick set
+    cases = configurations(chk.tier if THOROUGH_VALIDATED else "quick", rng, assigns)
     for k, c in enumerate(cases):
         c["id"] = "d%d" % k
         c["out"] = os.path.join(gdir, c["id"])
@@ -194,8 +198,8 @@ def run_phase(chk, assigns, rng, gdir, binary=None):
                       {"kind": "case", "harness": "c12_pdc", "np": c["nr"], "case": slim, "result": rr})
     vlib.log("[C12] MPI route: %d configurations run %.1fs" % (len(cases), __import__("time").time() - chk.t0))
     # ---- TLC judges ----
-    verdicts, _ = vmeshlib.run_tlc_stream(chk, "PartitionDistCheck", "C12_BATCH3", items, "c12pdc", prepare="load_c12", max_procs=6,
-                                          cap_weight=40000)
+    verdicts, _ = vmeshlib.run_tlc_stream(chk, "PartitionDistCheck", "C12_BATCH3", items, "c12pdc", prepare="load_c12", max_procs=4,
+                                          cap_weight=40000, xmx="3g")
     tot = {"pairs": 0, "single": 0, "cross": 0, "levels": 0, "shifted": 0}
     maxgroups = 0
     multigroup = 0
